@@ -187,6 +187,21 @@ Fixpoint has_neg_zero (j : json) : bool :=
   | _ => false
   end.
 
+(* ---------- the nesting limit ---------- *)
+(* how deep a value nests: scalars 0, an array or object one more than its deepest member *)
+Fixpoint value_depth (j : json) : Z :=
+  match j with
+  | JArr l => 1 + (fix go (l : list json) : Z :=
+                     match l with [] => 0 | v :: l' => Z.max (value_depth v) (go l') end) l
+  | JObj m => 1 + (fix go (m : list (bytes * json)) : Z :=
+                     match m with [] => 0 | kv :: m' => Z.max (value_depth (snd kv)) (go m') end) m
+  | _ => 0
+  end%Z.
+
+(* documents nested deeper than this are refused (json.go maxJSONDepth; encoding/json has the same limit) *)
+Definition spec_max_nesting : Z := 10000.
+Definition too_deep (j : json) : bool := (spec_max_nesting <? value_depth j)%Z.
+
 (* room versions 6 and later, as the Matrix specification and the library's version list name them *)
 Definition spec_enforcing_versions : list bytes :=
   [bs "6"; bs "7"; bs "8"; bs "9"; bs "10"; bs "11"; bs "12";
